@@ -1372,12 +1372,65 @@ fn matrix(sh: &mut Shard) {
     }
 }
 
+/// Errors that are only found at the end of the text (a block that is never closed): whichever statement is held to be
+/// the offending one, the reported row / column must be the same under LF, CRLF and CR line endings (positions are counted
+/// in the file as the user sees it).
+fn eof_faults(sh: &mut Shard) {
+    const OPENERS: [&[&str]; 8] = [
+        &["DO WHILE ZK1% < 2", "  ZK1% = ZK1% + 1"],
+        &["IF ZK1% = 0 THEN", "  PRINT 1"],
+        &["FOR ZK6% = 1 TO 2", "  PRINT ZK6%"],
+        &["WHILE ZK1% < 2", "  ZK1% = ZK1% + 1"],
+        &["SELECT CASE ZK1%", "CASE 0", "  PRINT 0"],
+        &["SUB ZSb", "  PRINT 1"],
+        &["FUNCTION ZFn%", "  ZFn% = 1"],
+        &["IF ZK1% = 0 THEN", "  PRINT 1", "ELSE", "  PRINT 2"],
+    ];
+    if sh.shard != 1 % sh.nshards {
+        return;
+    }
+    for (k, opener) in OPENERS.iter().enumerate() {
+        for final_eol in [true, false] {
+            for blank_lines in [0usize, 2] {
+                let mut lines: Vec<String> = vec!["ZK1% = 0".to_string(), "PRINT \"f\"".to_string()];
+                lines.extend(opener.iter().map(|l| l.to_string()));
+                for _ in 0..blank_lines {
+                    lines.push(String::new());
+                }
+                let mut seen: Vec<(String, Option<(u32, u32)>, String)> = vec![];
+                for eol in [EolMode::Lf, EolMode::CrLf, EolMode::Cr] {
+                    let text = join_lines(&lines, eol, final_eol);
+                    sh.eval();
+                    sh.journal(&text);
+                    sh.class(&format!("eof-fault:{}", eol.name()));
+                    sh.nontrivial(hash64(&(&text, "eof")));
+                    let r = impl_run::front(&text);
+                    let (pos, cls) = match &r {
+                        Ok(_) => (None, "accepted".to_string()),
+                        Err(e) => (e.pos(), e.class()),
+                    };
+                    seen.push((text, pos, cls));
+                }
+                let differs = seen.iter().any(|x| x.1 != seen[0].1 || x.2 != seen[0].2);
+                if differs {
+                    let inputs = json!({"kind": "eof", "program": seen[0].0, "program_crlf": seen[1].0, "program_cr": seen[2].0, "fault": format!("eof-fault:{}", k)});
+                    let v = Violation::new("c11-eof-position-depends-on-line-endings", "an error found at the end of the text is reported at different positions under LF, CRLF and CR line endings", inputs)
+                        .exp_obs(json!({"lf": format!("{:?} {}", seen[0].1, seen[0].2)}), json!({"crlf": format!("{:?} {}", seen[1].1, seen[1].2), "cr": format!("{:?} {}", seen[2].1, seen[2].2)}));
+                    if !sh.report(Err(v)) {
+                        return;
+                    }
+                }
+            }
+        }
+    }
+}
+
 impl Prop for C11 {
     fn id(&self) -> &'static str {
         "C11"
     }
     fn rule(&self) -> &'static str {
-        "(1) Matrix: a catalogue of statements with exactly one diagnostic (wrong argument count / argument type for user SUBs, user FUNCTIONs in every expression position, built-in functions and subs; undefined label for GOTO/GOSUB/ON ERROR/RESUME/RETURN; duplicate label/DIM/CONST; assignment to a CONST; a DECLARE contradicting an earlier DECLARE and the implementation; type mismatch in every expression position; undefined TYPE / field; unterminated string literal; unbalanced parenthesis; illegal token; incomplete statements; block closers without opener; misplaced EXIT / DIM SHARED; run-time faults: division by zero, overflow, subscript out of range, illegal function call, RETURN without GOSUB, RESUME without error, out of DATA, bad file number, file not found) is placed in small programs written line by line: context (own line, inside 1 or 3 blocks, after / before a colon, THEN / ELSE branch of a one-line IF, in a SUB, in a FUNCTION called from an expression, at the end of a FUNCTION -> SUB -> FUNCTION chain) x line ending (LF, CRLF, CR, three LF/CRLF/CR rotations) x placement (first possible row, middle, last possible row; with and without final line end). (2) Random search: accepted generated programs (core programs and programs with SUB/FUNCTION call chains, 10-60 lines) are rendered under a random layout (keyword/identifier case, blanks/tabs, blank lines, comment lines, trailing comments, colon-joined statements, LF/CRLF/CR or a per-line mix, with or without final line end) and ONE fault is injected by replacing a simple statement chosen anywhere (any nesting depth, main module or procedure): the catalogue's static faults, the original seven static faults, and seven run-time faults expressed in the generator's IR. Expected: reported row = row of the faulted statement, column inside its text (one past its end allowed), error family as the catalogue says; for run-time faults the active call sites (from the construction in (1), from the reference semantics in (2)) must be reported as [fault row, call-site rows innermost first ... main module]. Non-trivial = (1) anything but the plain first-row LF case, (2) fault row >= 3 and preceded by a blank line / comment / colon join / CR, CRLF or mixed endings / enclosing block / enclosing call; distinct by (program text, fault kind)."
+        "(1) Matrix: a catalogue of statements with exactly one diagnostic (wrong argument count / argument type for user SUBs, user FUNCTIONs in every expression position, built-in functions and subs; undefined label for GOTO/GOSUB/ON ERROR/RESUME/RETURN; duplicate label/DIM/CONST; assignment to a CONST; a DECLARE contradicting an earlier DECLARE and the implementation; type mismatch in every expression position; undefined TYPE / field; unterminated string literal; unbalanced parenthesis; illegal token; incomplete statements; block closers without opener; misplaced EXIT / DIM SHARED; run-time faults: division by zero, overflow, subscript out of range, illegal function call, RETURN without GOSUB, RESUME without error, out of DATA, bad file number, file not found) is placed in small programs written line by line: context (own line, inside 1 or 3 blocks, after / before a colon, THEN / ELSE branch of a one-line IF, in a SUB, in a FUNCTION called from an expression, at the end of a FUNCTION -> SUB -> FUNCTION chain) x line ending (LF, CRLF, CR, three LF/CRLF/CR rotations) x placement (first possible row, middle, last possible row; with and without final line end). (1b) Blocks that are never closed (8 kinds, with and without final line end and trailing blank lines): the error found at the end of the text must be reported at the same row / column under LF, CRLF and CR. (2) Random search: accepted generated programs (core programs and programs with SUB/FUNCTION call chains, 10-60 lines) are rendered under a random layout (keyword/identifier case, blanks/tabs, blank lines, comment lines, trailing comments, colon-joined statements, LF/CRLF/CR or a per-line mix, with or without final line end) and ONE fault is injected by replacing a simple statement chosen anywhere (any nesting depth, main module or procedure): the catalogue's static faults, the original seven static faults, and seven run-time faults expressed in the generator's IR. Expected: reported row = row of the faulted statement, column inside its text (one past its end allowed), error family as the catalogue says; for run-time faults the active call sites (from the construction in (1), from the reference semantics in (2)) must be reported as [fault row, call-site rows innermost first ... main module]. Non-trivial = (1) anything but the plain first-row LF case, (2) fault row >= 3 and preceded by a blank line / comment / colon join / CR, CRLF or mixed endings / enclosing block / enclosing call; distinct by (program text, fault kind)."
     }
     fn assumptions(&self) -> Vec<&'static str> {
         vec![
@@ -1390,6 +1443,7 @@ impl Prop for C11 {
     }
     fn run(&self, sh: &mut Shard) {
         matrix(sh);
+        eof_faults(sh);
         let cases = sh.share(sh.tier.pick(14_000, 500_000));
         sh.search(1, cases / 2, 60, 300, |sh, tape| one_case(sh, tape, false));
         sh.search(2, cases / 2, 80, 400, |sh, tape| one_case(sh, tape, true));
@@ -1397,6 +1451,14 @@ impl Prop for C11 {
     fn replay(&self, _sh: &mut Shard, inputs: &Value) -> Result<(), Violation> {
         let text = inputs["program"].as_str().unwrap_or("");
         let kind = inputs["fault"].as_str().unwrap_or("");
+        if inputs["kind"] == "eof" {
+            let texts = [inputs["program"].as_str().unwrap_or(""), inputs["program_crlf"].as_str().unwrap_or(""), inputs["program_cr"].as_str().unwrap_or("")];
+            let obs: Vec<(Option<(u32, u32)>, String)> = texts.iter().map(|t| match impl_run::front(t) { Ok(_) => (None, "accepted".to_string()), Err(e) => (e.pos(), e.class()) }).collect();
+            if obs.iter().any(|o| *o != obs[0]) {
+                return Err(Violation::new("c11-eof-position-depends-on-line-endings", "an error found at the end of the text is reported at different positions under LF, CRLF and CR line endings", inputs.clone()).exp_obs(json!(format!("{:?}", obs[0])), json!(format!("{:?}", obs))));
+            }
+            return Ok(());
+        }
         if inputs["kind"] == "runtime" {
             let sites: Vec<Value> = inputs["sites"].as_array().cloned().unwrap_or_default();
             let call_rows: Vec<u32> = inputs["call_rows"].as_array().map(|a| a.iter().map(|x| x.as_u64().unwrap_or(0) as u32).collect()).unwrap_or_default();
